@@ -71,6 +71,16 @@ CHECKS["C18"] = dict(level="model_checking", design="5 C18",
    note="Constructors do not connect. 2.0 and 2.1 are behaviourally identical and form one observation class. Strings AwesomeVersion "
         "special-cases ('latest', 'v2') are outside the property's quantifier and not generated.",
    technique="TLC enumeration of Config.tla (constructor chain, version floor) + TLC validation of recorded real constructions and probes")
+CHECKS["C19"] = dict(level="model_checking", design="5 C19",
+   text="Framing.tla: for every byte stream <= 6 over {LF, CR, other, multi-byte} and every segmentation the lines handed out are the lines of "
+        "the bytes received so far (757 k states). Flavours.tla: product of the threaded and the asyncio instance of Gateway.tla on the same "
+        "line sequence - StateAgree and MultisetAgree for every pump schedule, SequenceAgree under the reference schedule; with arbitrary "
+        "schedules TLC reproduces the known finding. Real data_received and TCPTransport.run (fake socket) are fed every segmentation of "
+        "concrete streams (CRLF, split multi-byte characters, invalid UTF-8); real threaded and asyncio gateways run the same line sequences "
+        "with reference and random pump schedules; lines, final states and ordered transport logs compared by TLC, every run validated against Gateway.tla.",
+   note="The pump thread is stepped by the harness. One open known finding (emission ORDER of handler-queued jobs depends on batching in the "
+        "threaded flavour) is subtracted by structural signature; any other order difference is a violation.",
+   technique="TLC model checking of Framing.tla and of the product Flavours.tla + differential conformance records validated by TLC (StreamTrace.tla)")
 CHECKS["C09"] = dict(level="model_checking", design="5 C09",
    text="Ota.tla states what an OTA server must serve (0xFF padding of at most one page to a multiple of 128, 16-byte blocks, "
         "little-endian words, CRC-16/MODBUS defined bit by bit). TLC checks the spec's arithmetic for every length 1..400 and then acts "
